@@ -85,6 +85,32 @@ class _LazyMemo(object):
         return f"<_LazyMemo {self.obj}>"
 
 
+class _LazyGet(object):
+    """
+    Out of band marker among lazy writes: fetch from the memo an object whose
+    save is still queued ahead of this marker.
+    """
+
+    def __init__(self, key):
+        self.key = key
+
+    def __repr__(self):
+        return f"<_LazyGet {self.key}>"
+
+
+class _PromisingMemo(dict):
+    """
+    The pickler's memo.  Subscripting it with an object that is not there
+    (yet) answers a promise instead of raising ``KeyError``: dill fetches
+    objects it has "just saved" straight from the memo (to fill in the
+    globals of a function once the function exists), and with this pickler
+    "just saved" means "queued".  ``in`` and ``get`` keep telling the truth.
+    """
+
+    def __missing__(self, key):
+        return (_LazyGet(key), None)
+
+
 class _NonrecursivePickler(dill.Pickler):
     """
     Non-recursive pickler class.
@@ -105,6 +131,7 @@ class _NonrecursivePickler(dill.Pickler):
         self.lazywrites = []
         self.realwrite = file.write
         self._recursing = 0
+        self.memo = _PromisingMemo()
 
         # TODO: this creates a reference loop and prevents gc
         self.write = self.lazywrite
@@ -197,6 +224,12 @@ class _NonrecursivePickler(dill.Pickler):
     memoize = lazymemoize
     realmemoize = dill.Pickler.memoize
 
+    def get(self, i):
+        """The opcodes fetching memo entry ``i`` - or a promise of them."""
+        if isinstance(i, _LazyGet):
+            return i
+        return dill.Pickler.get(self, i)
+
     def dump(self, obj):
         """Write a pickled representation of obj to the open file."""
         if self.proto >= 2:
@@ -223,6 +256,10 @@ class _NonrecursivePickler(dill.Pickler):
                         )
                     else:
                         self.realmemoize(lw.obj)
+                elif isinstance(lw[0], _LazyGet):
+                    # by now the object has had its turn
+                    entry = dict.__getitem__(self.memo, lw[0].key)
+                    self.realwrite(dill.Pickler.get(self, entry[0]))
                 else:
                     self.realwrite(*lw)
         self.realwrite(pickle.STOP)
